@@ -14,7 +14,7 @@ import sys
 import types
 import weakref
 
-from . import core
+from . import core, faults
 from .core import COL, HarnessError
 from .shadow import Shadow
 
@@ -134,6 +134,10 @@ def attach(owner, name, monitor):
     def wrapper(*args, **kwargs):
         if col.depth:
             return orig(*args, **kwargs)
+        low = col.low_limit
+        if low:                     # monitor code runs with the normal limit, the library with the low one
+            sys.setrecursionlimit(col.high_limit)
+        fired0 = faults.fired()
         col.depth += 1
         try:
             try:
@@ -149,10 +153,23 @@ def attach(owner, name, monitor):
         finally:
             col.depth -= 1
         try:
+            if low:
+                sys.setrecursionlimit(low)
             result = orig(*args, **kwargs)
         except core.CaseTimeout:
+            if low:
+                sys.setrecursionlimit(col.high_limit)
             raise
         except BaseException as exc:
+            if low:
+                sys.setrecursionlimit(col.high_limit)
+            if faults.fired() != fired0 or (low and isinstance(exc, RecursionError)):
+                # the call was cut short by the harness (injected exception / hardly any stack left):
+                # it is not judged; whatever is asked afterwards is
+                col.counters['calls_cut_short_not_judged'] += 1
+                if low:
+                    sys.setrecursionlimit(low)
+                raise
             col.depth += 1
             try:
                 monitor.raised(token, args, kwargs, exc)
@@ -162,7 +179,11 @@ def attach(owner, name, monitor):
                 col.harness_error(f'{qual}.raised', e)
             finally:
                 col.depth -= 1
+                if low:
+                    sys.setrecursionlimit(low)
             raise
+        if low:
+            sys.setrecursionlimit(col.high_limit)
         col.depth += 1
         try:
             rep = monitor.after(token, args, kwargs, result)
@@ -176,6 +197,8 @@ def attach(owner, name, monitor):
             col.harness_error(f'{qual}.after', e)
         finally:
             col.depth -= 1
+            if low:
+                sys.setrecursionlimit(low)
         return result
 
     wrapper.__rv_wrapper__ = True
